@@ -256,8 +256,12 @@ def split_list(xs, ns):
 
 
 def safe_map(f, *xs):
+    from ..sym import documented
+
     xs = [list(x) for x in xs]
     n = len(xs[0])
     for x in xs[1:]:
-        assert len(x) == n, "length mismatch: %s" % [len(a) for a in xs]
+        if len(x) != n:
+            # jax.util.safe_map asserts equal lengths: part of its contract, hence an outcome of the code under test
+            raise documented(AssertionError("length mismatch: %s" % [len(a) for a in xs]))
     return [f(*a) for a in zip(*xs)]
